@@ -1316,9 +1316,15 @@ func (env *SpecEnv) callExpr(e *SExpr) SVal {
 		tn := e.Args[1].String()
 		ptr := strings.HasPrefix(tn, "*")
 		tn = strings.TrimPrefix(tn, "*")
+		// slice_T: the slice type []T (the expression grammar has no type literals)
+		isSlice := strings.HasPrefix(tn, "slice_")
+		tn = strings.TrimPrefix(tn, "slice_")
 		_, gt := env.binderSort(tn)
 		if gt == nil {
 			env.fail("unknown type %s", tn)
+		}
+		if isSlice {
+			gt = types.NewSlice(gt)
 		}
 		var dt types.Type = gt
 		if ptr {
